@@ -326,6 +326,38 @@ def _r127(ck, prog, fns, cfg, rid="R12.7", floor=2):
         wr = [(b, t) for b, t in f.calls() if is_callee(t, r"SegmentWriter::write_delta$")]
         if not wr:
             continue
+        if f.kind == "closure":
+            # `deltas.iter().try_for_each(|d| writer.write_delta(d))?`: the closure is the loop body; the driver is in the parent
+            par = prog.fns.get(f.parent)
+            n += 1
+            fid = re.sub(r"\{closure#\d+\}", "{closure}", (par.id if par is not None else f.id)).replace("streaming::", "")
+            key = "%s:write_delta#0%s" % (fid, _tag(cfg))
+            okc = False
+            why = "the closure that writes a delta is not driven by try_for_each/for_each over the batch"
+            if par is not None:
+                for b, t in par.calls():
+                    if is_callee(t, r"Iterator>::(try_for_each|for_each)::") and len(t["args"]) >= 2:
+                        clo = src_of_operand(par, t["args"][1])
+                        if clo.kind == "agg" and clo.rv.get("n") == f.id:
+                            it = src_of_operand(par, t["args"][0], through_calls=TRANSPARENT)
+                            adapt = []
+                            cur = it
+                            hops = 0
+                            while cur.kind == "call" and hops < 8:
+                                if is_callee(cur.term, r"Iterator>::(filter|filter_map|take|skip|step_by|take_while|skip_while)\b"):
+                                    adapt.append(callee(cur.term).rsplit("::", 1)[-1].split("<")[0])
+                                if not cur.term["args"]:
+                                    break
+                                cur = src_of_operand(par, cur.term["args"][0], through_calls=TRANSPARENT)
+                                hops += 1
+                            every = all(wb == 0 or f.dominates(wb, e) for wb, _ in wr for e in f.exits())
+                            prop = is_callee(t, r"try_for_each") and (lib2.error_propagates(par, t) or lib2.flows_to_return(par, t["dest"]))
+                            okc = not adapt and every and prop
+                            why = ("adaptor %s drops elements" % adapt) if adapt else ("the write is not on every path of the closure" if not every
+                                                                                       else "the error of try_for_each is not propagated")
+            ck.check(okc, rid, key, "a delta taken for this flush can be left out of the segment (%s)" % why, f.where(wr[0][1]["ln"]),
+                     detail="try_for_each(write_delta)? over the whole batch")
+            continue
         heads = lib2.loop_heads(f)
         for k, (b, t) in enumerate(sorted(wr, key=lambda x: x[1]["ln"])):
             n += 1
